@@ -1,8 +1,242 @@
-(* C07 — placeholder while the model is being tied to the code; theorems follow. *)
-From Verif Require Import Lib.Bytes Auth.Types Auth.Decide.
+(* C07 — Event authorisation decides exactly what the Matrix authorisation rules decide.
 
+   Model: Auth/Abs.v (JSON events -> abstract input, executable, tied to Allowed by the
+   correspondence check) and Auth/Decide.v (the library's decision procedure on that input).
+   Specification: Auth/AllowedSpec.v (the rule list of the Matrix specification in its own order,
+   with the documented departures of DESIGN.md 6.1 as named definitions dep_...).
+   The theorems hold for every abstract input (no bounds). Where the unchanged library differs
+   from the rules and the difference is a finding, the input class is excluded by a named
+   hypothesis (no_F18, no_tpi_on_non_invite, no_F22, no_F26, no_broken_power_levels) and a
+   ..._refuted witness shows the difference on a concrete input. *)
+From Verif Require Import Lib.Bytes Json.Ast Auth.GoJson Auth.Ids Auth.Types Auth.Versions Auth.Abs
+     Auth.Decide Auth.Model Auth.AllowedSpec Auth.PLSpec Auth.PLProofs Auth.SpecProofs.
+Open Scope Z_scope.
+
+(* the rules accept exactly when the library's procedure answers "allowed" *)
+Theorem allowed_refines_spec :
+  forall a sv,
+    rules_agree (ai_flags a) sv -> auth_wf sv a ->
+    no_F18 a -> no_tpi_on_non_invite a -> no_F22 sv a -> no_F26 a -> no_broken_power_levels a ->
+    decide_spec sv a = accepted (decide_model a).
+Proof. exact refines_spec. Qed.
+
+(* the switches generated from eventversion.go agree with the specification's version matrix for
+   every version but org.matrix.msc3787, whose restricted-join switch is not set (F10) *)
+Theorem spec_table_agrees :
+  forall ver f sv,
+    In ver all_versions -> ver <> msc3787 ->
+    flags_of_version ver = Some f -> spec_rules_of ver = Some sv -> rules_agree f sv.
+Proof. exact version_rules_agree. Qed.
+
+(* on JSON events, through abs: Allowed (model) accepts iff the rules accept *)
+Theorem allowed_model_refines_spec :
+  forall sig_ok ver f sv e auths,
+    In ver all_versions -> ver <> msc3787 ->
+    flags_of_version ver = Some f -> spec_rules_of ver = Some sv ->
+    let a := abs sig_ok f e auths in
+    auth_wf sv a ->
+    no_F18 a -> no_tpi_on_non_invite a -> no_F22 sv a -> no_F26 a -> no_broken_power_levels a ->
+    (decide_spec sv a = true <-> allowed_model sig_ok ver e auths = Some VOk).
+Proof.
+  intros sig_ok ver f sv e auths Hin Hne Hf Hs a Hwf H18 Ht H22 H26 Hnb.
+  unfold allowed_model. rewrite Hf. fold a.
+  rewrite (refines_spec a sv (version_rules_agree ver f sv Hin Hne Hf Hs) Hwf H18 Ht H22 H26 Hnb).
+  destruct (decide_model a); simpl; split; congruence.
+Qed.
+
+(* families (each for every input of its event type) *)
+Theorem create_rules :
+  forall a sv, rules_agree (ai_flags a) sv -> auth_wf sv a -> no_F22 sv a -> ai_kind a = KCreate ->
+    spec_create sv a = accepted (decide_create a).
+Proof. exact SpecProofs.create_rules. Qed.
+
+Theorem membership_rules :
+  forall a sv, rules_agree (ai_flags a) sv -> auth_wf sv a ->
+    no_F18 a -> no_tpi_on_non_invite a -> no_F26 a ->
+    spec_member sv a = accepted (decide_member a).
+Proof. exact member_rules. Qed.
+
+Theorem power_levels_rules :
+  forall a sv, rules_agree (ai_flags a) sv -> no_broken_power_levels a ->
+    spec_power_levels sv a = accepted (decide_power_levels a).
+Proof. exact SpecProofs.power_levels_rules. Qed.
+
+Theorem redaction_rules :
+  forall a sv, rules_agree (ai_flags a) sv -> spec_redaction sv a = accepted (decide_redaction a).
+Proof. exact SpecProofs.redaction_rules. Qed.
+
+Theorem alias_rules :
+  forall a sv, rules_agree (ai_flags a) sv -> spec_aliases sv a = accepted (decide_aliases a).
+Proof. exact SpecProofs.alias_rules. Qed.
+
+Theorem generic_rules :
+  forall a sv, rules_agree (ai_flags a) sv ->
+    (match spec_generic sv a with Some _ => true | None => false end) = accepted (decide_default a).
+Proof. exact SpecProofs.generic_rules. Qed.
+
+(* events whose auth events come from different rooms are refused *)
 Theorem different_rooms_refused :
   forall a, ai_provider_ok a = true -> ai_one_room a = false -> decide_model a = VNotAllowed.
 Proof. intros a H1 H2. unfold decide_model. rewrite H1, H2. reflexivity. Qed.
 
+(* defaults when power-levels, join-rules or member events are absent *)
+Theorem defaults_when_absent :
+  forall sig_ok f e auths,
+    let a := abs sig_ok f e auths in
+    (find_auth t_power_levels [] auths = None ->
+       ai_pl_present a = false /\
+       ai_pl a = pl_absent (match ai_create a with Some c => c_sender c | None => [] end))
+    /\ (find_auth t_join_rules [] auths = None -> ai_join_rule a = JrInvite)
+    /\ (find_auth t_member (ev_sender e) auths = None -> ai_sender_member a = Some MsLeave)
+    /\ (forall creator,
+          let p := pl_absent creator in
+          pl_ban p = 50 /\ pl_kick p = 50 /\ pl_redact p = 50 /\ pl_invite p = 0
+          /\ pl_state_default p = 50 /\ pl_events_default p = 0 /\ pl_users_default p = 0
+          /\ pl_user_level p creator = 9007199254740991
+          /\ (forall u, u <> creator -> pl_user_level p u = 0)
+          /\ (forall n, pl_notif_level p n = 50)).
+Proof.
+  intros sig_ok f e auths a. repeat split.
+  - unfold a, abs. cbn [ai_pl_present]. unfold pl_of_auths. rewrite H. reflexivity.
+  - unfold a, abs. cbn [ai_pl ai_create]. unfold pl_of_auths. rewrite H. reflexivity.
+  - intro H. unfold a, abs. cbn [ai_join_rule]. unfold join_rule_of. rewrite H. reflexivity.
+  - intro H. unfold a, abs. cbn [ai_sender_member]. unfold member_from_auth. rewrite H. reflexivity.
+  - rewrite absent_user_level, bytes_eqb_refl. reflexivity.
+  - intros u Hu. rewrite absent_user_level. apply bytes_eqb_neq in Hu. rewrite Hu. reflexivity.
+Qed.
+
+(* creators are privileged in version 12: their level is 2^53 whatever the power-levels event
+   says, it satisfies every required level an integer-only content can express, and an accepted
+   power-levels event can never name them (C08 clause 5) *)
+Theorem creators_privileged_v12 :
+  forall f c present pl u,
+    vf_priv_creators f = true -> In u (creators_of c) ->
+    user_power_level f c present pl u = creator_level
+    /\ creator_level = 2 ^ 53
+    /\ (forall old new sender, flags_consistent f -> old_wf c present old ->
+          pl_change_allowed f c present old new sender = VOk -> ~ In u (map fst (pl_users new))).
+Proof.
+  intros f c present pl u Hp Hin. repeat split.
+  - unfold user_power_level. rewrite Hp. apply mem_bytes_In in Hin. rewrite Hin. reflexivity.
+  - intros old new sender Hc Hw Hacc.
+    destruct (accept_no_escalation f c present old new sender Hc Hw Hacc) as (_ & _ & _ & _ & _ & H5).
+    exact (H5 Hp u Hin).
+Qed.
+
+Theorem v12_versions_privileged :
+  forall ver f, In ver [bs "12"; bs "org.matrix.hydra.11"] -> flags_of_version ver = Some f ->
+    vf_priv_creators f = true.
+Proof.
+  intros ver f Hin Hf. simpl in Hin.
+  destruct Hin as [<-|[<-|[]]]; vm_compute in Hf; inversion Hf; reflexivity.
+Qed.
+
+(* ---------- the finding classes are real: concrete inputs on which the library differs ---------- *)
+Definition wit_flags (cc : create_checker) : ver_flags :=
+  {| vf_knocking := true; vf_restricted := Some true; vf_pl_check := PlV2; vf_int_levels := true;
+     vf_create_check := cc; vf_priv_creators := false; vf_pseudo_ids := false; vf_event_v3 := false |}.
+Definition wit_rules (creator_required : bool) : spec_rules :=
+  mk_rules true true true creator_required true false false false.
+Definition wit_create : create_info :=
+  {| c_room := bs "!r:hs1"; c_event_id := bs "$c"; c_sender := bs "@creator:hs1";
+     c_sender_domain := bs "hs1"; c_federate := true; c_room_version := Some (bs "10");
+     c_additional := [] |}.
+Definition wit_input (f : ver_flags) (k : ekind) (sk : option bytes) (jr : jrule)
+           (nm : option member_info) (tm : option mship) (cc : create_check)
+           (tpi_ev : option (option (list bytes))) (sig sender_ok : bool) : auth_input :=
+  {| ai_flags := f; ai_provider_ok := true; ai_one_room := true; ai_kind := k;
+     ai_type := bs "m.room.member"; ai_room := bs "!r:hs1"; ai_room_kind := RoomWithDomain (bs "hs1");
+     ai_sender := bs "@alice:hs1"; ai_sender_domain := Some (bs "hs1"); ai_state_key := sk;
+     ai_prev := [bs "$p"]; ai_create := Some wit_create; ai_pl_present := false;
+     ai_pl := pl_absent (bs "@creator:hs1"); ai_join_rule := jr;
+     ai_sender_member := Some MsJoin; ai_new_member := nm; ai_target_member := tm;
+     ai_tpi_event := tpi_ev; ai_sig_ok := sig; ai_sig_ok_spec := sig; ai_tpi_sender_ok := sender_ok;
+     ai_via_split_ok := false; ai_via_member := None; ai_new_pl := None; ai_new_pl_users_ok := true;
+     ai_redacts_domain := None; ai_cc := cc |}.
+Definition cc_ok (known : bool) : create_check :=
+  {| cc_content_ok := true; cc_has_creator := false; cc_room_version_known := known;
+     cc_additional_ok := true; cc_room_id_present := true |}.
+
+(* F22: a version-11 create event with an unknown room_version is allowed *)
+Theorem F22_refuted :
+  let a := wit_input (wit_flags CrV2) KCreate (Some []) JrInvite None None (cc_ok false) None false false in
+  let a := {| ai_flags := ai_flags a; ai_provider_ok := true; ai_one_room := true; ai_kind := KCreate;
+              ai_type := bs "m.room.create"; ai_room := ai_room a; ai_room_kind := ai_room_kind a;
+              ai_sender := ai_sender a; ai_sender_domain := ai_sender_domain a; ai_state_key := Some [];
+              ai_prev := []; ai_create := None; ai_pl_present := false; ai_pl := ai_pl a;
+              ai_join_rule := JrInvite; ai_sender_member := Some MsLeave; ai_new_member := None;
+              ai_target_member := None; ai_tpi_event := None; ai_sig_ok := false; ai_sig_ok_spec := false;
+              ai_tpi_sender_ok := false; ai_via_split_ok := false; ai_via_member := None;
+              ai_new_pl := None; ai_new_pl_users_ok := true; ai_redacts_domain := None;
+              ai_cc := cc_ok false |} in
+  rules_agree (ai_flags a) (wit_rules false) /\ decide_model a = VOk /\ decide_spec (wit_rules false) a = false.
+Proof. cbv zeta. split; [|split; vm_compute; reflexivity]. repeat split; try reflexivity; discriminate. Qed.
+
+(* F26: knock -> join under join rule public is refused *)
+Theorem F26_refuted :
+  let m := {| m_membership := MsJoin; m_tpi := None; m_via := []; m_mapping := None |} in
+  let a := wit_input (wit_flags CrV1) KMember (Some (bs "@alice:hs1")) JrPublic (Some m) (Some MsKnock)
+                     (cc_ok true) None false false in
+  let a := {| ai_flags := ai_flags a; ai_provider_ok := true; ai_one_room := true; ai_kind := KMember;
+              ai_type := ai_type a; ai_room := ai_room a; ai_room_kind := ai_room_kind a;
+              ai_sender := ai_sender a; ai_sender_domain := ai_sender_domain a; ai_state_key := ai_state_key a;
+              ai_prev := ai_prev a; ai_create := ai_create a; ai_pl_present := false; ai_pl := ai_pl a;
+              ai_join_rule := JrPublic; ai_sender_member := Some MsKnock; ai_new_member := Some m;
+              ai_target_member := Some MsKnock; ai_tpi_event := None; ai_sig_ok := false; ai_sig_ok_spec := false;
+              ai_tpi_sender_ok := false; ai_via_split_ok := false; ai_via_member := None;
+              ai_new_pl := None; ai_new_pl_users_ok := true; ai_redacts_domain := None;
+              ai_cc := cc_ok true |} in
+  decide_model a = VNotAllowed /\ decide_spec (wit_rules true) a = true.
+Proof. vm_compute. split; reflexivity. Qed.
+
+(* F18: a third-party invite for a banned target, or by another sender than the one who sent the
+   m.room.third_party_invite event, is accepted *)
+Theorem F18_refuted :
+  let t := {| t_mxid := bs "@bob:hs2"; t_token := bs "tok"; t_sigs := [(bs "id", bs "ed25519:1")] |} in
+  let m := {| m_membership := MsInvite; m_tpi := Some t; m_via := []; m_mapping := None |} in
+  let banned := wit_input (wit_flags CrV1) KMember (Some (bs "@bob:hs2")) JrInvite (Some m) (Some MsBan)
+                          (cc_ok true) (Some (Some [bs "key"])) true true in
+  let other := wit_input (wit_flags CrV1) KMember (Some (bs "@bob:hs2")) JrInvite (Some m) (Some MsLeave)
+                         (cc_ok true) (Some (Some [bs "key"])) true false in
+  decide_model banned = VOk /\ decide_spec (wit_rules true) banned = false
+  /\ decide_model other = VOk /\ decide_spec (wit_rules true) other = false.
+Proof. vm_compute. repeat split; reflexivity. Qed.
+
+(* non-vacuity of the main theorem: an ordinary accepted invite satisfies every hypothesis *)
+Example allowed_refines_spec_concrete :
+  let m := {| m_membership := MsInvite; m_tpi := None; m_via := []; m_mapping := None |} in
+  let a := wit_input (wit_flags CrV1) KMember (Some (bs "@bob:hs2")) JrInvite (Some m) (Some MsLeave)
+                     (cc_ok true) None false false in
+  rules_agree (ai_flags a) (wit_rules true) /\ auth_wf (wit_rules true) a
+  /\ no_F18 a /\ no_tpi_on_non_invite a /\ no_F22 (wit_rules true) a /\ no_F26 a /\ no_broken_power_levels a
+  /\ decide_model a = VOk /\ decide_spec (wit_rules true) a = true.
+Proof.
+  cbv zeta.
+  split. { repeat split; try reflexivity; discriminate. }
+  split. { split; [reflexivity|]. split; [discriminate|]. split.
+           - intro H. discriminate.
+           - intro H. vm_compute in H. discriminate. }
+  split. { intros m t keys H. vm_compute in H. inversion H; subst. discriminate. }
+  split. { intros m t H. vm_compute in H. inversion H; subst. discriminate. }
+  split. { intro H. discriminate. }
+  split. { intros m H. vm_compute in H. inversion H; subst. discriminate. }
+  split. { intros c H. vm_compute in H. inversion H; subst. reflexivity. }
+  split; vm_compute; reflexivity.
+Qed.
+
+Print Assumptions allowed_refines_spec.
+Print Assumptions spec_table_agrees.
+Print Assumptions allowed_model_refines_spec.
+Print Assumptions create_rules.
+Print Assumptions membership_rules.
+Print Assumptions power_levels_rules.
+Print Assumptions redaction_rules.
+Print Assumptions alias_rules.
+Print Assumptions generic_rules.
 Print Assumptions different_rooms_refused.
+Print Assumptions defaults_when_absent.
+Print Assumptions creators_privileged_v12.
+Print Assumptions v12_versions_privileged.
+Print Assumptions F22_refuted.
+Print Assumptions F26_refuted.
+Print Assumptions F18_refuted.
